@@ -241,6 +241,49 @@ def chain_job(args):
     return forest.files, forest.total, forest.leaves, forest.maxdepth
 
 
+def rounds_job(args):
+    """Round-structured histories: (saves; export; [export_indexing; [restore]]; get every id) x n_rounds, exhaustively.
+    These reach what short unstructured histories cannot: second export rounds, unreferenced bundles, work after a restore."""
+    cfgd, n_rounds, out_dir, first = args
+    forest = Forest(out_dir, "c15_%s_rounds%02d" % (cfgd["tag"], first), max_nodes=10 ** 9, meta={"config": {k: v for k, v in cfgd.items() if k != "scratch"}})
+    save_sets = [[(1, a)] * (a is not None) + [(2, b)] * (b is not None) for a in (None, 1, 2) for b in (None, 1)]
+    tails = [[], ["export_indexing"], ["export_indexing", "restore"]]
+    choices = []
+    for ss in save_sets:
+        for tl in tails:
+            ops = [{"op": "save", "id": i, "c": c} for i, c in ss] + [{"op": "export"}] + [{"op": t} for t in tl] \
+                + [{"op": "get", "id": 1}, {"op": "get", "id": 2}]
+            choices.append(ops)
+
+    def rec(parent, hist, depth, r):
+        for ci, ops in enumerate(choices):
+            if r == 1 and ci != first:
+                continue
+            s = Session(cfgd)
+            try:
+                for o in hist:
+                    s.apply(o)
+                k, d, ok = parent, depth, True
+                for o in ops:
+                    if not s.enabled(o):
+                        ok = False
+                        break
+                    d += 1
+                    k = forest.add(k, s.apply(o), d)
+            finally:
+                s.close()
+            if not ok:
+                continue
+            if r < n_rounds:
+                rec(k, hist + ops, d, r + 1)
+            else:
+                forest.leaves += 1
+
+    rec(0, [], 0, 1)
+    forest.flush()
+    return forest.files, forest.total, forest.leaves, forest.maxdepth
+
+
 def write_failure_probe(scratch):
     """A bundle that cannot be serialised (a column mixing str and number): the failed write must be reported."""
     out = []
@@ -268,6 +311,10 @@ def configs(tier, scratch):
     out = []
     if tier == "quick":
         grid = [("unit", 1, 1, 1), ("unit", 2, 1, 2), ("cfg", 1, 2, 3), ("gir", 1, 1, 2)]
+    elif tier == "rounds_quick":
+        grid = [("gir", 1, 1, 2), ("cfg", 1, 1, 3)]
+    elif tier == "rounds_thorough":
+        grid = [(f, ic, bc, mr) for f in ("unit", "cfg", "gir") for ic, bc, mr in ((1, 1, 2), (2, 2, 3), (1, 2, 1))]
     else:
         grid = [(f, ic, bc, mr) for f in ("unit", "cfg", "gir") for ic in (1, 2) for bc in (1, 2) for mr in (1, 2, 3)]
     for f, ic, bc, mr in grid:
@@ -279,6 +326,8 @@ def configs(tier, scratch):
 def main():
     out_dir, tier, seed = sys.argv[1], sys.argv[2], int(sys.argv[3])
     scratch = os.path.join(out_dir, "scratch")
+    if os.path.isdir("/dev/shm") and os.access("/dev/shm", os.W_OK):
+        scratch = tempfile.mkdtemp(prefix="lian_c15_", dir="/dev/shm")     # bundle files are written and read back thousands of times
     os.makedirs(scratch, exist_ok=True)
     depth = 4 if tier == "quick" else 5
     ids = [1, 2]
@@ -289,8 +338,22 @@ def main():
             jobs.append((cfgd, i, o, depth, ids, out_dir))
         chain_jobs.append((cfgd, 40 if tier == "quick" else 150, 12 if tier == "quick" else 16, seed * 1000 + len(chain_jobs), out_dir))
         fam.append({"config": cfgd["tag"], "depth": depth, "ids": ids, "exhaustive": True})
+    # one configuration with three ids (LRU eviction orders need a third item)
+    cfg3 = dict(family="unit", item_cap=2, bundle_cap=1, max_rows=2, scratch=scratch, puts_bundle=True, tag="unit3_i2_b1_m2")
+    d3 = 3 if tier == "quick" else 4
+    for i, o in enumerate(ops_for([1, 2, 3], [0, 1, 2])):
+        jobs.append((cfg3, i, o, d3, [1, 2, 3], out_dir))
+    fam.append({"config": cfg3["tag"], "depth": d3, "ids": [1, 2, 3], "exhaustive": True})
+    round_jobs = [(c, 3, out_dir, first) for c in configs("rounds_" + tier, scratch) for first in range(18)]
+    fam.append({"rounds": 3, "configs": sorted({c[0]["tag"] for c in round_jobs}), "exhaustive": True,
+                "round": "saves of {id1: none|1|2 rows} x {id2: none|1 row}; export; [export_indexing; [restore]]; get 1; get 2"})
     files, total, leaves, maxd = [], 0, 0, 0
     with mp.Pool(min(16, mp.cpu_count())) as pool:
+        for fs, t, l, m in pool.imap_unordered(rounds_job, round_jobs):
+            files += fs
+            total += t
+            leaves += l
+            maxd = max(maxd, m)
         for fs, t, l, m in pool.imap_unordered(subtree, jobs):
             files += fs
             total += t
